@@ -177,6 +177,7 @@ func checkAppendGuardOn(w *World, c *Check, pr *prover, name string, app *ssa.Fu
 				}
 			}
 			guarded := false
+			stale := false
 			for _, g := range rawGuards(b) {
 				gc, ok := g.cond.(*ssa.Call)
 				if !ok || !calleeNamed(gc, "Contains") || g.onTrue {
@@ -199,6 +200,25 @@ func checkAppendGuardOn(w *World, c *Check, pr *prover, name string, app *ssa.Fu
 					recvOK = true
 				}
 				elemOK := appended[unwrapCallRecv(args[1])] || len(appended) == 0
+				// inside a loop the list tested must be read afresh in every round: a snapshot taken before the loop
+				// does not see what earlier rounds of the same call appended (Append(a, b, a) stores a twice)
+				if recvOK {
+					lh := loopHeaders(app)
+					if len(lh[b]) > 0 {
+						if ri, isInstr := r0.(ssa.Instruction); isInstr {
+							fresh := false
+							for h := range lh[b] {
+								if lh[ri.Block()][h] {
+									fresh = true
+								}
+							}
+							if !fresh {
+								stale = true
+								recvOK = false
+							}
+						}
+					}
+				}
 				if recvOK && elemOK {
 					guarded = true
 				}
@@ -206,6 +226,8 @@ func checkAppendGuardOn(w *World, c *Check, pr *prover, name string, app *ssa.Fu
 			key := fmt.Sprintf("%s.Append#%d", name, n)
 			if guarded {
 				c.ok("C13.guard", key, w.InstrPos(st), "append is on the not-contained side of Contains on the same list with the same element")
+			} else if stale {
+				c.bad("C13.guard", key, w.InstrPos(st), fmt.Sprintf("%s.Append tests Contains on a copy of the list taken before the loop over the arguments: items appended earlier in the same call are not seen, so Append(a, b, a) stores a twice", name))
 			} else {
 				c.bad("C13.guard", key, w.InstrPos(st), fmt.Sprintf("%s.Append grows the list without first testing Contains on that list for the element being appended: appending a present item duplicates it", name))
 			}
